@@ -1049,14 +1049,13 @@ func ruleChainWalkEndsAtTheRoot(c *Ctx, rule string) {
 	}
 }
 
-// ruleAdjacencyIsDecidedOnTheText — C10.R15 / C05.R15: "two parameters may not be adjacent" is a property of the
-// pattern's text — a piece that ends with '}' followed by a piece that begins with '{'. The parser's flag that
-// carries "the previous piece ended with '}'" round its loop is computed from the piece (its last byte), not from a
-// field of the segment built from it: the segment kinds record "ends with '}'" (Endpoint) for named and interceptor
-// parameters only, so a flag taken from there lets `{id:\d+}{page}` through — the pattern is malformed, yet URL
-// building and registration accept it.
+// ruleAdjacencyIsDecidedOnTheText — C10.R15 / C05.R15: "two parameters may not be adjacent": a piece that ends with a
+// parameter followed by a piece that begins with '{'. The parser's flag that carries "the previous piece ended with a
+// parameter" round its loop is: the segment built from the piece is a parameter (any kind — the end-point flag is
+// recorded for named and interceptor parameters only, `{id:\d+}{page}` would slip through) and its suffix is empty
+// (the last byte being '}' says nothing: '}' is legal literal text, /x}{id} has one parameter — D62).
 func ruleAdjacencyIsDecidedOnTheText(c *Ctx, rule string) {
-	c.R.Rule(c.R.Property+"."+rule, 0, "adjacent parameters are detected on the text of the pieces")
+	c.R.Rule(c.R.Property+"."+rule, 0, "adjacent parameters are detected as: the previous segment is a parameter of any kind with an empty suffix")
 	f := c.P.MustFunc("syntax.(*Interceptors).Split")
 	for _, g := range builderCluster(c, f) {
 		if !strings.HasPrefix(an.FuncKey(g), "syntax.") {
@@ -1092,10 +1091,54 @@ func ruleAdjacencyIsDecidedOnTheText(c *Ctx, rule string) {
 					continue
 				}
 				t := c.O.Of(e).String()
-				fromSegment := strings.Contains(t, ".Endpoint") || strings.Contains(t, ".Type") || strings.Contains(t, ".Suffix")
-				fromText := strings.Contains(t, "125")
-				good := fromText && !fromSegment
-				c.R.Add(rule, c.fk(g), "loop-flag:previous-piece-ends-with-brace/from-the-text", c.pos(in), good, ifelse(good, "the flag is the last byte of the piece compared with '}'", "the flag that says the previous piece ended with '}' is "+t+", not the last byte of the piece: a segment records that for named and interceptor parameters only, so a regexp parameter directly followed by another parameter (`{id:\\d+}{page}`) is not reported as adjacent and the malformed pattern is accepted"))
+				// "the previous piece ends with a parameter" = it is a parameter segment (of any kind) with an empty
+				// suffix: a comparison of the segment's Suffix with "" that is reached only behind a test of its Type
+				// against the literal kind
+				suffixEmpty, typed := false, false
+				var walk func(v ssa.Value, depth int)
+				walk = func(v ssa.Value, depth int) {
+					if depth > 4 {
+						return
+					}
+					switch x := v.(type) {
+					case *ssa.Phi:
+						for _, pe := range x.Edges {
+							walk(pe, depth+1)
+						}
+					case *ssa.BinOp:
+						for _, pair := range [][2]ssa.Value{{x.X, x.Y}, {x.Y, x.X}} {
+							if sc, isC := strConst(pair[1]); isC && sc == "" && strings.HasSuffix(an.AP(pair[0]), ".Suffix") && (x.Op == token.EQL) {
+								suffixEmpty = true
+								segAP := strings.TrimSuffix(an.AP(pair[0]), ".Suffix")
+								an.AllInstrs(g, func(y ssa.Instruction) {
+									tb, isB := y.(*ssa.BinOp)
+									if !isB || (tb.Op != token.NEQ && tb.Op != token.EQL) {
+										return
+									}
+									if kk, isK := tb.Y.(*ssa.Const); isK && kk.Value != nil && an.AP(tb.X) == segAP+".Type" && kk.Value.ExactString() == c.A.Kind("String") && tb.Block().Dominates(x.Block()) {
+										typed = true
+									}
+								})
+							}
+						}
+						if x.Op == token.LAND || x.Op == token.AND {
+							walk(x.X, depth+1)
+							walk(x.Y, depth+1)
+						}
+					}
+				}
+				walk(e, 0)
+				good := suffixEmpty && typed && !strings.Contains(t, ".Endpoint")
+				why := "the flag that says the previous piece ended with a parameter is " + t + ": "
+				switch {
+				case strings.Contains(t, "125"):
+					why += "the last byte of the piece compared with '}' — but '}' is legal literal text, so /x}{id} (one parameter behind a literal '}') is refused as two adjacent parameters by CheckSyntax, URL and Handle"
+				case strings.Contains(t, ".Endpoint"):
+					why += "the end-point flag is recorded for named and interceptor parameters only, so a regexp parameter directly followed by another parameter (`{id:\\d+}{page}`) is not reported as adjacent and the malformed pattern is accepted"
+				default:
+					why += "not \"a parameter segment of any kind with an empty suffix\""
+				}
+				c.R.Add(rule, c.fk(g), "loop-flag:previous-piece-ends-with-a-parameter", c.pos(in), good, ifelse(good, "the flag is: the segment is a parameter (its Type is tested against the literal kind) and its suffix is empty", why))
 			}
 		})
 	}
@@ -1440,9 +1483,9 @@ func ruleIndexBoundedByItsOwnLength(c *Ctx, rule string) {
 				out++
 				return
 			}
-			if isRangeIndex(idx) {
+			if ph, isPhi := base.(*ssa.Phi); isRangeIndex(idx) || (isPhi && strings.HasPrefix(ph.Block().Comment, "rangeindex.loop")) {
 				ranged++
-				return // the index of a range loop: over the collection itself, or over its parallel twin (keys[i] / vals[i])
+				return // the index of a range loop (or a constant away from it): over the collection itself, or over its parallel twin (keys[i] / vals[i], segs[i-1])
 			}
 			sort.Strings(measured)
 			measured = dedupStrings(measured)
@@ -2445,6 +2488,11 @@ func ruleEndpointIsAnEmptySuffix(c *Ctx, rule string) {
 // noOpeningBraceEdge: the edge says that the text v holds no '{' (strings.IndexByte/Index(v, '{') is -1 / < 0,
 // !strings.Contains*(v, "{")).
 func noOpeningBraceEdge(c *Ctx, isText func(ssa.Value) bool) func(b *ssa.BasicBlock, succ int) bool {
+	return noByteEdge(c, isText, '{')
+}
+
+// noByteEdge: the edge says that the text holds no byte ch
+func noByteEdge(c *Ctx, isText func(ssa.Value) bool, ch byte) func(b *ssa.BasicBlock, succ int) bool {
 	isBrace := func(v ssa.Value) bool {
 		k, ok := v.(*ssa.Const)
 		if !ok || k.Value == nil {
@@ -2452,9 +2500,9 @@ func noOpeningBraceEdge(c *Ctx, isText func(ssa.Value) bool) func(b *ssa.BasicBl
 		}
 		switch k.Value.Kind() {
 		case constant.Int:
-			return k.Int64() == '{'
+			return k.Int64() == int64(ch)
 		case constant.String:
-			return strings.Contains(constant.StringVal(k.Value), "{")
+			return strings.Contains(constant.StringVal(k.Value), string(ch))
 		}
 		return false
 	}
@@ -2670,4 +2718,116 @@ func movedBack(v ssa.Value, c0 *ssa.Call) bool {
 		return x.Op == token.SUB
 	}
 	return false
+}
+
+// ruleAccessorsHandOutCopies — C07.R14 / C13.R16: an exported method that returns a slice or map field of its receiver
+// as it is hands the caller the object's own memory. For Group.Routers() that memory is the dispatch order: sorting
+// the returned list for display reorders which router is asked first, and removing routers while ranging over it
+// skips one and leaves a nil in the list (slices.DeleteFunc shifts and zeroes the shared array). Exported methods of
+// the module's exported types return such fields through slices.Clone / maps.Clone (or build a fresh value).
+func ruleAccessorsHandOutCopies(c *Ctx, rule string) {
+	c.R.Rule(c.R.Property+"."+rule, 0, "exported accessors hand out copies of the receiver's slices and maps")
+	n := 0
+	for _, f := range c.libFuncs() {
+		f := f
+		if f.Parent() != nil || f.Object() == nil || !f.Object().Exported() || f.Signature.Recv() == nil || !strings.HasPrefix(an.FuncKey(f), "mux.") {
+			continue
+		}
+		for _, r := range an.Returns(f) {
+			for i, res := range r.Results {
+				switch res.Type().Underlying().(type) {
+				case *types.Slice, *types.Map:
+				default:
+					continue
+				}
+				v := an.ReturnValue(r, i)
+				base, field, isField := fieldLoadAny(v)
+				if !isField || base != "recv" {
+					continue
+				}
+				n++
+				c.R.Add(rule, c.fk(f), "return:recv."+field+"/copy", c.pos(r), false, "the exported method returns the receiver's own "+field+" (no copy): a caller that sorts, truncates or edits the returned value changes the object — for the router list of a Group that is the dispatch order, and a remove-while-ranging loop skips a router and leaves a nil entry")
+			}
+		}
+	}
+	c.R.Add(rule, "pkg:mux", "exported-accessors/examined", "-", true, fmt.Sprintf("%d exported methods return a slice or map field of their receiver as it is", n))
+}
+
+// ruleLiteralSegmentsSplitBytewise — C03.R23 / C02.R22: a segment of the literal kind holds no parameter (the splitter
+// cuts a pattern at every '{' that opens one), so a brace in it — the unclosed '{' of /p/{a, which CheckSyntax and
+// the suite accept — is ordinary text. Run through the brace rules of the split-point function, /p/{a and /p/{b
+// get no common prefix and become two literal siblings with one first byte: the first-byte index reaches only one of
+// them once the parent has five children. In Segment.Similarity every call of the split-point function is behind
+// "the segment is not of the literal kind".
+func ruleLiteralSegmentsSplitBytewise(c *Ctx, rule string) {
+	c.R.Rule(c.R.Property+"."+rule, 1, "two literal segments are compared byte for byte: the brace rules apply to parameter segments only")
+	sim := c.P.Func("syntax.(*Segment).Similarity")
+	lp := splitPointFunc(c)
+	if sim == nil || lp == nil {
+		c.R.Add(rule, "pkg:syntax", "similarity/function", "-", true, "no Similarity / split-point function (not decided here)")
+		return
+	}
+	strKind := c.A.Kind("String")
+	n := 0
+	an.AllInstrs(sim, func(in ssa.Instruction) {
+		call := an.CallOf(in)
+		if call == nil {
+			return
+		}
+		g := an.StaticCallee(call)
+		if g == nil || an.Origin(g) != lp {
+			return
+		}
+		n++
+		dom := an.DominatedByEdge(in, func(b *ssa.BasicBlock, succ int) bool {
+			return edgeHas(b, succ, func(cond ssa.Value, truth bool) bool {
+				x, k, eq, ok := an.CondAtom(cond)
+				if !ok || k.Value == nil || !strings.HasSuffix(an.AP(x), ".Type") {
+					return false
+				}
+				if k.Value.ExactString() == strKind {
+					return eq != truth // Type != String holds
+				}
+				return eq == truth // Type == some parameter kind holds
+			})
+		})
+		c.R.Add(rule, c.fk(sim), "call:"+an.FuncKey(lp)+"/only-for-parameter-segments", c.pos(in), dom, ifelse(dom, "the brace rules are applied behind a test that the segment is not literal", "two literal segments are run through the brace rules: a literal '{' (legal text: /p/{a) counts as an open parameter, /p/{a and /p/{b get no common prefix and become two literal siblings with the same first byte — with five and more siblings the first-byte index reaches only one of them and the other route answers 404 while Routes() lists it"))
+	})
+	if n == 0 {
+		c.R.Add(rule, c.fk(sim), "call:split-point/exists", c.P.Pos(sim.Pos()), true, "Similarity does not call the split-point function")
+	}
+}
+
+// ruleGroupNameIsNotCutShort — C01.R24 / C02.R23: the name of a regexp parameter is pasted into the expression as the
+// name of the capture group, "(?P<" + name + ">" + rule + ")". Go ends a group name at the first '>': for {a>b:\d+}
+// the expression compiled is (?P<a>b>\d+) — a group a that matches "b>" and digits. The route never matches /12,
+// matches /b>12 instead and reports a value that does not satisfy the rule the pattern states. Wherever the syntax
+// package builds "P<" + Name + ">", it is behind a test that the name holds no '>'.
+func ruleGroupNameIsNotCutShort(c *Ctx, rule string) {
+	c.R.Rule(c.R.Property+"."+rule, 1, "a parameter name pasted into a regular expression as a group name holds no '>'")
+	n := 0
+	for _, f := range c.libFuncs() {
+		f := f
+		if !strings.HasPrefix(an.FuncKey(f), "syntax.") {
+			continue
+		}
+		an.AllInstrs(f, func(in ssa.Instruction) {
+			bo, ok := in.(*ssa.BinOp)
+			if !ok || bo.Op != token.ADD {
+				return
+			}
+			// "P<" + name
+			pre, isC := strConst(bo.X)
+			if !isC || !strings.HasSuffix(pre, "P<") || !strings.HasSuffix(an.AP(bo.Y), ".Name") {
+				return
+			}
+			n++
+			nameAP := an.AP(bo.Y)
+			dom := an.DominatedByEdge(in, noByteEdge(c, func(v ssa.Value) bool { return v == bo.Y || an.AP(v) == nameAP }, '>'))
+			c.R.Add(rule, c.fk(f), "splice:group-name="+nameAP+"/holds-no->", c.pos(in), dom, ifelse(dom, "the name is pasted only behind a test that it holds no '>'", "the parameter name is pasted into the expression as a group name without a test for '>': Go ends the group name at the first '>', so {a>b:\\d+} compiles to (?P<a>b>\\d+) — the route matches /b>12 instead of /12 and reports a value that does not satisfy \\d+"))
+		})
+	}
+	if n == 0 {
+		c.R.Add(rule, "pkg:syntax", "splice:group-name", "-", true, "no named capture group is built from a parameter name (another form: not decided here)")
+	}
 }
